@@ -5,9 +5,10 @@
 (* c16_fetchsched) are validated against the ACTIONS of FetchSched.tla.    *)
 (* Each recorded step must be a step of the corresponding action with the  *)
 (* recorded arguments, and the service's observable state after it -- the  *)
-(* fetch table (repository -> peer), every session's state, fetching set   *)
-(* and queue length, and the fetches emitted by the step, in order -- must *)
-(* equal the action's result.  The only nondeterminism is the order in     *)
+(* fetch table (repository -> peer), every session's state, recorded link, *)
+(* fetching set and queue length, the connections and dials that exist,    *)
+(* and the fetches emitted by the step, in order -- must equal the         *)
+(* action's result.  The only nondeterminism is the order in     *)
 (* which dequeue_fetches visits the sessions (an RNG shuffle in the code); *)
 (* TLC picks the order that explains the observation.  A rejection is      *)
 (* DRIFT (reported in the evidence); the gate is TraceFetchSched.tla.       *)
@@ -29,6 +30,10 @@ Matches(o) ==
          ELSE /\ st'[p] = x[5]
               /\ ToSet(x[3]) = sfetch'[p]
               /\ x[4] = Len(queue'[p])
+              /\ x[6] = link'[p]                   \* the link the session recorded
+    \* the connections that exist and the dials under way, as the harness (the wire) knows them
+    /\ {<<x[1], x[2]>> : x \in ToSet(o.wire)} = {<<p, wire'[p]>> : p \in {q \in Peer : wire'[q] # "none"}}
+    /\ ToSet(o.dial) = {p \in Peer : dial'[p]}
     \* the fetches the step emitted, in order, are the tasks the action created
     /\ Len(tasks') = Len(tasks) + Len(o.fetches)
     /\ \A i \in 1..Len(o.fetches) :
@@ -44,13 +49,16 @@ Reset ==
     /\ sfetch' = [p \in Peer |-> {}] /\ queue' = [p \in Peer |-> <<>>]
     /\ fetching' = [r \in Repo |-> NoFetch] /\ tasks' = <<>> /\ live' = {} /\ applied' = <<>> /\ hist' = <<>>
     /\ routing' = {} /\ syncIn' = 0
+    /\ link' = [p \in Peer |-> IF p \in Persistent THEN "out" ELSE "none"]
+    /\ wire' = [p \in Peer |-> "none"] /\ dial' = [p \in Peer |-> p \in Persistent]
 
 Step ==
     /\ Rec[l].ev = "step"
     /\ LET o == Rec[l]
            op == o.op
            n == op[1]
-       IN /\ CASE n = "connect" -> Connect(op[2])
+       IN /\ CASE n = "connect" -> Connect(op[2], op[3])
+                [] n = "dialfail" -> DialFail(op[2])
                 [] n = "attempted" -> Attempt(op[2])
                 [] n = "disconnect" -> Disconnect(op[2])
                 [] n = "stale_disconnect" -> StaleDisconnect(op[2])
